@@ -149,7 +149,7 @@ class C09(Check):
         ncalls = rng.choice([1, 1, 2, 3])
         cuts = sorted(rng.sample(range(1, nrun), min(nrun - 1, ncalls - 1))) if nrun > 1 else []
         plan = [{"seconds": c * step + (rng.randrange(1, step) if rng.random() < 0.3 else 0)} for c in cuts] + [{"seconds": nrun * step}]
-        return {"config": cfg, "plan": plan, "schedule": {"name": "seeded", "seed": rng.randrange(2**31)}, "job_seed": rng.randrange(2**31), "fault_seed": rng.randrange(2**31)}
+        return {"config": cfg, "plan": plan, "schedule": {"name": "seeded", "seed": rng.randrange(2**31)}, "job_seed": rng.randrange(2**31), "fault_seed": rng.randrange(2**31), "tz": gen.draw_tz(rng)}
 
     def sample_view(self, case):
         t = case["config"]["time"]
